@@ -32,7 +32,7 @@ def _k3_forall(vals, exact):
 
 def run(ctx):
     repo = ctx.repo
-    ctx.decided = ['C05.1 a comma list matches iff some alternative does and no exclusion does (C12.5); a pattern selects messages on / creating / destroying its object, '
+    ctx.decided = ['C05.1 a comma list matches iff some alternative does and no exclusion does (C12.5) and simplify() rewrites lists only by simplifying members, dropping never-constants or collapsing to * (C12.6); a pattern selects messages on / creating / destroying its object, '
                    'the bare form adds messages mentioning it (C14.4); a pair needs both components (C14.2)',
                    'C05.2 every item of an argument list must be satisfied by some argument, no excluded item by any',
                    'C05.3 * matches everything, ! nothing', 'C05.4 which part of an argument / object / connection each value matcher is applied to',
@@ -47,7 +47,7 @@ def run(ctx):
     from ..report import Ctx as _Ctx
     from . import c12 as _c12, c14 as _c14
     nl = 0
-    for mod_, prop_, pred in ((_c12, 'C12', lambda r, k: r == 'C12.5'), (_c14, 'C14', lambda r, k: r == 'C14.4' or (r == 'C14.2' and k.startswith('pair:')))):
+    for mod_, prop_, pred in ((_c12, 'C12', lambda r, k: r in ('C12.5', 'C12.6')), (_c14, 'C14', lambda r, k: r == 'C14.4' or (r == 'C14.2' and k.startswith('pair:')))):
         sub = _Ctx(prop_, repo, tier=ctx.tier, quiet=True)
         mod_.run(sub)
         nl += len([o for o in sub.obligations if pred(o['rule'], o.get('key', ''))])
@@ -59,7 +59,8 @@ def run(ctx):
 
     # ---- C05.2 argument lists ---------------------------------------------------------------------------------------------
     f_al = repo.func('ArgsMatcherList.matches')
-    argp = f_al.params()[1]
+    from ..sim import _canon_params
+    argp = (_canon_params(f_al) or f_al.params())[1]       # terms are written with the parameter names of the pinned tree
     apaths = paths_of(repo, f_al, unroll=depth, bool_returns=True)
     n_al = 0
     bad = None
@@ -289,10 +290,11 @@ def run(ctx):
     ctx.floor('C05.6', nb, 4, 'bracket recursions of the sub-parsers')
     f_pml = repo.func('matcher._parse_matcher_list')
     n_pml = 0
+    from ..sim import deep_norm as _dn
     for p in paths_of(repo, f_pml, unroll=1):
         if p.outcome[0] != 'return':
             continue
-        t = norm(p.outcome[1])
+        t = _dn(p.outcome[1])
         bang = [v for a, v in p.decisions if a.text == "_split_pair(text, '!') is None"] + [not v for a, v in p.decisions if a.text == "_split_pair(text, '!')"]
         if bang and not bang[0]:
             n_pml += 1
@@ -303,10 +305,10 @@ def run(ctx):
             n_pml += 1
             many = [v for a, v in p.decisions if re.match(r'^1 < len\(', a.text)] + [not v for a, v in p.decisions if re.match(r'^len\(.*\) < 2$', a.text)]
             if many and many[0]:
-                ok = re.match(r"^MatcherList\((\[sub_parser\((\w+)\) for \2 in _split_on\(text, ','\)\]|positive), \[\]\)$", t) is not None
+                ok = re.match(r"^MatcherList\(\[sub_parser\((\w+)\) for \1 in _split_on\(text, ','\)\], \[\]\)$", t) is not None
                 ctx.check(ok, 'C05.6', 'list:commas-are-alternatives', f_pml.loc(), 'a comma list without ! is a list of alternatives with no exclusions', 'a comma list is parsed as %s' % t[:200])
             elif many:
-                ok = re.match(r"^(\[sub_parser\((\w+)\) for \2 in _split_on\(text, ','\)\]|positive)\[0\]$", t) is not None
+                ok = re.match(r"^\[sub_parser\((\w+)\) for \1 in _split_on\(text, ','\)\]\[0\]$", t) is not None
                 ctx.check(ok, 'C05.6', 'list:single-item-is-itself', f_pml.loc(), 'a single item (also inside redundant brackets) is the item itself', 'a single item is parsed as %s' % t[:200])
     ctx.floor('C05.6', n_pml, 3, 'returning paths of _parse_matcher_list')
     # conn: obj.name(args)
